@@ -579,10 +579,7 @@ class WriterThread(threading.Thread):
             saved_id = event.id_bytes
             event.created_at - 1
             if event.is_paramaterized_replaceable:
-                try:
-                    d_tag = [tag[1] for tag in event.tags if tag[0] == "d"][0]
-                except IndexError:
-                    d_tag = None
+                d_tag = d_tag_value(event)
             else:
                 d_tag = None
 
@@ -597,7 +594,7 @@ class WriterThread(threading.Thread):
                         continue
                     candidate = decode_event(get_event_data(txn, event_id))
                     if d_tag is not None:
-                        if not all(candidate.has_tag("d", d_tag)):
+                        if d_tag_value(candidate) != d_tag:
                             continue
                     self._delete_event(txn, candidate, log)
                     counter["count"] += 1
@@ -1247,6 +1244,17 @@ def decode_event(data: tuple) -> Event:
             sig=data[7].hex(),
         )
         return event
+
+
+def d_tag_value(event: Event) -> str:
+    """
+    The value of the first "d" tag, according to nip-33:
+    no tag, [["d"]] and [["d", ""]] all mean the empty value
+    """
+    for tag in event.tags:
+        if tag[0] == "d":
+            return tag[1] if len(tag) > 1 else ""
+    return ""
 
 
 def get_event_data(txn, event_id: bytes):
